@@ -77,7 +77,8 @@ class World:
         if k in ('insert', 'insert_outpoint'):
             if k == 'insert':
                 e = bytes.fromhex(op[1])
-                arg = e
+                # the element as the caller may hold it: bytes, bytearray, memoryview, or a CScript (a scriptPubKey to watch)
+                arg = libx.spellings(e, with_script=True)[(len(e) + len(self.inserted)) % 4][1]
             else:
                 e = bytes.fromhex(op[1]) + W.u32(op[2])
                 arg = COutPoint(bytes.fromhex(op[1]), op[2])
@@ -87,7 +88,7 @@ class World:
             self.inserted.append(e)
         elif k == 'contains':
             e = bytes.fromhex(op[1])
-            got = libx.call('contains', self.f.contains, e)[1]
+            got = libx.call('contains', self.f.contains, libx.spellings(e, with_script=True)[(len(e) + len(self.inserted) + 1) % 4][1])[1]
             exp = self.model_contains(e)
             if bool(got) != exp:
                 raise Violation('contains/%s' % ('false-negative' if (exp and e in self.inserted) else ('false-positive-set' if got else 'missed')),
